@@ -18,6 +18,7 @@ import (
 	"reflect"
 	"sort"
 	"strings"
+	"sync"
 	"testing"
 	"time"
 
@@ -251,13 +252,15 @@ func randPatchFor(rng *rand.Rand, target any, depth int) any {
 	}
 	sort.Strings(keys)
 	for _, k := range keys {
-		switch rng.Intn(5) {
+		switch rng.Intn(6) {
 		case 0:
 			p[k] = nil
 		case 1:
 			p[k] = randPatchFor(rng, tm[k], depth-1)
 		case 2:
 			p[k] = randDoc(rng, depth-1, true)
+		case 3:
+			p[k] = throughJSON(tm[k]) // the member repeated verbatim, null members included
 		}
 	}
 	if rng.Intn(2) == 0 {
@@ -284,20 +287,41 @@ func TestVectors(t *testing.T) {
 		doMerge(tw, &st, v.Target, v.Patch, "merge")
 		st.Vectors++
 	}
-	rng := rand.New(rand.NewSource(tracefmt.Seed()))
+	// random deeper documents, from several goroutines at once (the merge must not keep state
+	// between calls); every recorded input/output pair is judged as usual
 	n := tracefmt.EnvInt("VERIF_N", 2000)
-	for i := 0; i < n; i++ {
-		target := throughJSON(randDoc(rng, 4, true))
-		patch := throughJSON(randPatchFor(rng, target, 4))
-		cur := doMerge(tw, &st, tag(target), tag(patch), "merge")
-		st.Random++
-		// chains: the output of one application is the target of the next
-		for k := 0; k < 2 && rng.Intn(2) == 0; k++ {
-			p2 := throughJSON(randPatchFor(rng, cur, 3))
-			cur = doMerge(tw, &st, tag(cur), tag(p2), "merge")
-			st.Chains++
-		}
+	const workers = 4
+	var wg sync.WaitGroup
+	var stMu sync.Mutex
+	for g := 0; g < workers; g++ {
+		wg.Add(1)
+		go func(g int) {
+			defer wg.Done()
+			rng := rand.New(rand.NewSource(tracefmt.Seed()*31 + int64(g)))
+			local := stats{Classes: map[string]int{}}
+			for i := 0; i < n/workers; i++ {
+				target := throughJSON(randDoc(rng, 4, true))
+				patch := throughJSON(randPatchFor(rng, target, 4))
+				cur := doMerge(tw, &local, tag(target), tag(patch), "merge")
+				local.Random++
+				// chains: the output of one application is the target of the next
+				for k := 0; k < 2 && rng.Intn(2) == 0; k++ {
+					p2 := throughJSON(randPatchFor(rng, cur, 3))
+					cur = doMerge(tw, &local, tag(cur), tag(p2), "merge")
+					local.Chains++
+				}
+			}
+			stMu.Lock()
+			st.Random += local.Random
+			st.Chains += local.Chains
+			st.Changed += local.Changed
+			for k, v := range local.Classes {
+				st.Classes[k] += v
+			}
+			stMu.Unlock()
+		}(g)
 	}
+	wg.Wait()
 	if err := tw.Close(); err != nil {
 		t.Fatal(err)
 	}
@@ -547,10 +571,14 @@ func TestCfgDump(t *testing.T) {
 				}
 			case "empty-object":
 				return nest(ps[rng.Intn(len(ps))], map[string]any{})
+			case "echo-section": // a section of the same document sent back verbatim, nulls included
+				p := objs[1+rng.Intn(len(objs)-1)]
+				v, _ := at(doc, p)
+				return nest(p, throughJSON(v))
 			}
 			panic(class)
 		}
-		classes := []string{"transplant", "delete", "unknown-key", "wrong-type", "empty-object"}
+		classes := []string{"transplant", "delete", "unknown-key", "wrong-type", "empty-object", "echo-section"}
 		for _, c := range classes {
 			for i := 0; i < n; i++ {
 				add(bi, c, gen(c))
@@ -569,6 +597,7 @@ func TestCfgDump(t *testing.T) {
 		}
 		// fixed ones: whole-document patches
 		add(bi, "identity", map[string]any{})
+		add(bi, "echo-all", doc)
 		add(bi, "top-null", nil)
 		add(bi, "top-scalar", float64(5))
 		add(bi, "top-string", "x")
